@@ -148,6 +148,11 @@ class Runner:
                 o._sim_role = role
                 ent["listeners"][role] = o
             ls.append(o)
+        if op.get("shared_probe"):
+            from .simrt import SimSharedProbe
+
+            ent["probe"] = SimSharedProbe()
+            ls.append(ent["probe"])
         SIM.models[tag] = model
         SIM.fields[tag] = field
         SIM.machines.pop(tag, None)
@@ -260,6 +265,17 @@ class Runner:
         return h
 
     def do_noop(self, op):
+        return None
+
+    def do_attach_probe(self, op):
+        """Attach the very listener OBJECT that instance ``from`` got at construction to this instance
+        (the same audit log shared by the original and its copy)."""
+        ent = self.objs[op["inst"]]
+        probe = self.objs[op["from"]].get("probe")
+        if probe is None:
+            return None
+        ent["sm"].add_listener(probe)
+        ent["probe_src"] = op["from"]
         return None
 
     def do_setopt(self, op):
@@ -445,6 +461,8 @@ class Runner:
             except Exception:
                 pass
         for x in getattr(c, "_listeners", {}):
+            if type(x).__name__ == "SimSharedProbe":
+                ent2["probe"] = x
             role = getattr(x, "_sim_role", None)
             if role is not None and not any(x is o for o in ent["listeners"].values()):
                 x._sim_tag = tag
@@ -487,6 +505,9 @@ class Runner:
             o["allowed"] = [e.id for e in sm.allowed_events]
         except Exception as e:
             o["allowed_err"] = type(e).__name__
+        src = ent.get("probe_src")
+        if src is not None and self.objs.get(src, {}).get("probe") is not None:
+            o["probe_heard"] = sum(1 for t in self.objs[src]["probe"].heard if t == tag)
         if self.sc.get("observe_more"):
             try:
                 o["events"] = sorted(e.id for e in sm.events)
